@@ -16,6 +16,7 @@ type Str struct{ cells []*Term }
 type Node struct {
 	elems []Value
 	id    int
+	glob  bool // package-level state (a global or an object created by a package initialiser)
 }
 
 type Ptr struct {
@@ -39,6 +40,7 @@ type MapObj struct {
 	keys, vals []Value
 	opaque     bool
 	id         int
+	glob       bool
 }
 
 type Closure struct {
@@ -62,7 +64,7 @@ func (s Slice) isNil() bool { return s.node == nil }
 
 func (m *Machine) newNode(n int) *Node {
 	m.nodeSeq++
-	return &Node{elems: make([]Value, n), id: m.nodeSeq}
+	return &Node{elems: make([]Value, n), id: m.nodeSeq, glob: m.inInit > 0}
 }
 
 func width(t types.Type) int {
@@ -192,18 +194,29 @@ func (s Str) concrete() (string, bool) {
 }
 
 func (m *Machine) noteWrite(n *Node, where string) {
-	if m.frozen > 0 && n.id > 0 && n.id <= m.frozen {
-		m.events = append(m.events, pathEvent{kind: "write", label: "write to pre-existing object", detail: where})
+	if m.frozen > 0 && n.id > 0 && m.inInit == 0 && (n.id <= m.frozen || n.glob) {
+		lbl := "write to pre-existing object"
+		if n.glob {
+			lbl = "write to package-level state"
+		}
+		m.events = append(m.events, pathEvent{kind: "write", label: lbl, detail: where + m.ctxSuffix()})
 	}
 }
 
 func (m *Machine) noteWriteMap(mp *MapObj, where string) {
-	if m.frozen > 0 && mp.id > 0 && mp.id <= m.frozen {
-		m.events = append(m.events, pathEvent{kind: "write", label: "write to pre-existing map", detail: where})
+	if m.frozen > 0 && mp.id > 0 && m.inInit == 0 && (mp.id <= m.frozen || mp.glob) {
+		m.events = append(m.events, pathEvent{kind: "write", label: "write to pre-existing map", detail: where + m.ctxSuffix()})
 	}
 }
 
 func (m *Machine) newMap() *MapObj {
 	m.nodeSeq++
-	return &MapObj{id: m.nodeSeq}
+	return &MapObj{id: m.nodeSeq, glob: m.inInit > 0}
+}
+
+func (m *Machine) ctxSuffix() string {
+	if m.context != "" {
+		return " during " + m.context
+	}
+	return ""
 }
